@@ -2,6 +2,7 @@ import XModel.ManagerInv
 import XModel.ManagerC03b
 import XModel.ManagerC11
 import XModel.ManagerBisim
+import XModel.ManagerBisim2
 /-!
 # C03 — removing or replacing a definition leaves no trace
 The four indices are a function of the surviving tasks (`Index.Inv`), preserved by `register'` (fresh
@@ -10,6 +11,14 @@ id) and `unregister'` (present id) — the functions `Manager.register` / `Manag
 **Which tree.**  The model transcribes `/repo` as it stands now: the pinned commit plus the `fix:` commits recorded in
 `/verif/KNOWN_FINDINGS.json` (status `fixed`).  Where a theorem below rests on repaired code — `Index.unregister'` is the repaired walk over the tasks writing a dependency — it is false of
 the tree as first pinned; the witnesses are kept (`Index.pinned_unregister_stale` proves the first-pinned version violates the invariant).
+
+**Behavioural clauses.**  `C03_one_call_bisimulation` / `C03_history_same_*` cover expression-task managers and completing
+assignments only; the section "second part" at the end of the file (`XModel/ManagerBisim2.lean`) has the query clause
+(`C03_queries_agree`, `C03_definition_leaves_no_trace`), the bisimulation for managers holding function tasks and knobs
+(`C03_one_call_bisimulation_fn`, `C03_history_same_outcomes_fn`), what holds when an assignment raises while tasks run
+(`C03_assignment_any_outcome`; the errors may differ: `C03_failing_orders_differ`) and `refresh()` / `clone()` at any point of
+a history (`C03_refresh_anywhere`, `C03_clone_anywhere`).  Still not covered: a TRIGGERED linear knob run in two different
+orders, re-registration under an existing id.
 -/
 namespace Properties.C03
 open Index
@@ -97,7 +106,7 @@ theorem C03_self_check_passes :
     ∀ (s : Manager.MState), Manager.MInv s → (Manager.verify s).snd = none :=
   @Manager.verify_passes
 
-/-- two managers holding the SAME task table over equal containers (`SameTable`: indices and event logs may differ, both satisfy the index invariant) answer ONE API call — any call: assignments of values and expressions, in-place operators, register, unregister, load, refresh, cleanup, verify — with the same outcome (same exception or none) and are `SameTable` again afterwards; assignments under the hypotheses of C20's order independence (`CallOK`) -/
+/-- NARROW FORM (superseded by `C03_one_call_bisimulation_fn`).  Two managers holding the SAME task table over equal containers (`SameTable`: indices and event logs may differ, both satisfy the index invariant) answer ONE API call with the same error (or none) and are `SameTable` again afterwards, PROVIDED the call satisfies `CallOK`: register (fresh id, any kind of task), unregister, load, refresh, cleanup, verify — no condition; an assignment of a value or an expression or an in-place operator — only if EVERY task in the manager is an expression task (`Scope.exprs`; so no assignment is covered once a function task or a knob has been registered), the state is consistent, both schedulers return legal orders, and the assignment COMPLETES on the first manager (assignments that raise are not covered, except an in-place operator that raises before assigning) -/
 theorem C03_one_call_bisimulation :
     ∀ (sched1 sched2 : Manager.Sched) (s s' : Manager.MState) (c : Manager.Call),
       Manager.SameTable s s' →
@@ -106,7 +115,7 @@ theorem C03_one_call_bisimulation :
             Manager.SameTable (Manager.apply sched1 s c).fst (Manager.apply sched2 s' c).fst :=
   @Manager.apply_bisim
 
-/-- … along whole histories: call by call the same exceptions -/
+/-- NARROW FORM (superseded by `C03_history_same_outcomes_fn`): along a history every call of which satisfies `CallOK` (`BisimRun`: expression-task managers at every assignment, every assignment completes), call by call the same errors -/
 theorem C03_history_same_outcomes :
     ∀ (sched1 sched2 : Manager.Sched) (cs : List Manager.Call) (s s' : Manager.MState),
       Manager.SameTable s s' →
@@ -115,7 +124,7 @@ theorem C03_history_same_outcomes :
             List.map (fun x => x.snd) (Manager.outcomes sched1 s cs) :=
   @Manager.bisim_history_errors
 
-/-- … and `SameTable` at the end: a manager with a history of replaced and removed definitions and a fresh manager holding the surviving ones cannot be told apart by any further history of calls -/
+/-- NARROW FORM (superseded by `C03_history_same_final_state_fn`): … and `SameTable` at the end of every `BisimRun` history — a history whose assignments are all made while the manager holds expression tasks only, and all complete.  (Not "any further history": see `BisimRun'` for the wider class and `C03_assignment_any_outcome` / `C03_failing_orders_differ` for assignments that raise while tasks run.) -/
 theorem C03_history_same_final_state :
     ∀ (sched1 sched2 : Manager.Sched) (cs : List Manager.Call) (s s' : Manager.MState),
       Manager.SameTable s s' →
@@ -141,5 +150,154 @@ theorem C03_fresh_manager_bisimilar :
   @Manager.load_dump_bisim
 
 end wrapped
+
+/-! ### second part (`XModel/ManagerBisim2.lean`): queries, function tasks and knobs, failing assignments, refresh anywhere -/
+section wrapped2
+
+/-- **the query clause**: two managers with the same task table (`SameTable`; e.g. one with a history of replaced and removed definitions and a fresh one holding the surviving definitions) give the same answer to every query, as SETS (the lists may be ordered differently): `find_deps(start)` and `find_taskids(start_deps)` for every start set, every row and the key set (keys with a non-empty row) of each of the four indices `rdeps`, `rtasks`, `deptasks`, `tartasks`, and — equal as values — `lookDef`, `exprOf`, `dump` and every container read -/
+theorem C03_queries_agree :
+    ∀ {s s' : Manager.MState}, Manager.SameTable s s' → Manager.QueriesAgree s s' :=
+  @Manager.sameTable_queries
+
+/-- what `find_deps` computes, for ANY index state (no invariant needed): exactly the locations reachable from the start set along `rdeps` -/
+theorem C03_find_deps_is_reachability :
+    ∀ (m : Index.Mgr Manager.Path Manager.Path) (start : List Manager.Path) (x : Manager.Path),
+      x ∈ Manager.findDeps m start ↔ ∃ s0, s0 ∈ start ∧ Dfs3.Reach (Manager.rdOf m) s0 x :=
+  @Manager.findDeps_mem_iff
+
+/-- **every query answers as if the definition had never existed**: register an expression or function task under a fresh id (duplicate-free declared sets, manager not frozen), then unregister it: both calls succeed and the manager is `SameTable` with the one that never held the definition (so `C03_queries_agree` and the bisimulation theorems apply).  NOT claimed for a linear knob: the MODEL's `unregister` leaves the knob's remembered source value in `prev` (`Bisim2Example.knob_leaves_prev`) -/
+theorem C03_definition_leaves_no_trace :
+    ∀ (s : Manager.MState) (t : Manager.MTask),
+      Manager.MInv s → s.frozen = false → Manager.lookDef s.defs t.id = none → t.deps.Nodup → t.tars.Nodup →
+        ((∃ e, t.kind = Manager.Kind.expr e) ∨ ∃ body, t.kind = Manager.Kind.func body) →
+          (Manager.register s t).snd = none ∧
+            (Manager.unregister (Manager.register s t).fst t.id).snd = none ∧
+              Manager.SameTable s (Manager.unregister (Manager.register s t).fst t.id).fst :=
+  @Manager.register_unregister_sameTable
+
+/-- **one call, managers with expression, function and knob tasks**: two `SameTable` managers answer ONE call satisfying `CallOK'` with the same error (or none) and are `SameTable` afterwards.  `CallOK'`: register (fresh id, duplicate-free sets; any kind of task), unregister, load, refresh, cleanup, verify — no condition; `set_value` with a value or an expression, or an in-place operator — one of (a) the call is rejected or raises before any task runs (frozen manager, the expression does not evaluate, the write to the assigned location raises, the in-place operator raises), (b) both managers run the triggered tasks in the SAME order (then no scope: tasks of any kind including knobs, completing or raising at any point), (c) the assignment is in the scope `ScopeT` — every TRIGGERED task is an expression task or a soundly declared function task with pairwise incomparable targets (untriggered tasks, e.g. knobs, are unconstrained), the triggered targets are readable, both schedulers return legal orders, and the assignment COMPLETES on the first manager.  Not covered: an assignment that raises while tasks run under two different orders (see `C03_assignment_any_outcome`), a triggered knob under two different orders.  `CallOK` implies `CallOK'` (`Manager.CallOK.to'`) -/
+theorem C03_one_call_bisimulation_fn :
+    ∀ (sched1 sched2 : Manager.Sched) (s s' : Manager.MState) (c : Manager.Call),
+      Manager.SameTable s s' →
+        Manager.CallOK' sched1 sched2 s s' c →
+          (Manager.apply sched2 s' c).snd = (Manager.apply sched1 s c).snd ∧
+            Manager.SameTable (Manager.apply sched1 s c).fst (Manager.apply sched2 s' c).fst :=
+  @Manager.apply_bisim'
+
+/-- … along histories every call of which satisfies `CallOK'` in the pair of states where it is made (`BisimRun'`): call by call the same errors -/
+theorem C03_history_same_outcomes_fn :
+    ∀ (sched1 sched2 : Manager.Sched) (cs : List Manager.Call) (s s' : Manager.MState),
+      Manager.SameTable s s' →
+        Manager.BisimRun' sched1 sched2 s s' cs →
+          List.map (fun x => x.snd) (Manager.outcomes sched2 s' cs) =
+            List.map (fun x => x.snd) (Manager.outcomes sched1 s cs) :=
+  @Manager.bisim_history_errors'
+
+/-- … and `SameTable` (hence all queries agree) at the end of every `BisimRun'` history -/
+theorem C03_history_same_final_state_fn :
+    ∀ (sched1 sched2 : Manager.Sched) (cs : List Manager.Call) (s s' : Manager.MState),
+      Manager.SameTable s s' →
+        Manager.BisimRun' sched1 sched2 s s' cs →
+          Manager.SameTable (Manager.applyAll sched1 s cs) (Manager.applyAll sched2 s' cs) ∧
+            Manager.QueriesAgree (Manager.applyAll sched1 s cs) (Manager.applyAll sched2 s' cs) :=
+  fun sched1 sched2 cs s s' h hg =>
+    ⟨Manager.bisim_history_final' sched1 sched2 cs s s' h hg, Manager.bisim_history_queries' sched1 sched2 cs s s' h hg⟩
+
+/-- **an assignment that may raise while its tasks run** (`set_value(ref, value)` in the scope `ScopeT`, legal orders on both sides, readable targets; no completion hypothesis): the second manager raises IFF the first does — NOT necessarily the same error; if neither raises they are `SameTable` afterwards; in every case they agree afterwards on the task table, the freeze flag, the knob memory and the fault counter (`SameButStore`: everything `SameTable` compares except the containers) and both satisfy the index invariant.  The containers may differ: each side stopped at the first failing task of ITS order -/
+theorem C03_assignment_any_outcome :
+    ∀ (sched1 sched2 : Manager.Sched) (s s' : Manager.MState) (p : Manager.Path) (v : Store.Val),
+      Manager.SameTable s s' →
+        Manager.SetValueScope sched1 sched2 s s' p →
+          ((Manager.setValue sched2 s' p v).snd = none ↔ (Manager.setValue sched1 s p v).snd = none) ∧
+            ((Manager.setValue sched1 s p v).snd = none →
+                Manager.SameTable (Manager.setValue sched1 s p v).fst (Manager.setValue sched2 s' p v).fst) ∧
+              Manager.SameButStore (Manager.setValue sched1 s p v).fst (Manager.setValue sched2 s' p v).fst ∧
+                Manager.MInv (Manager.setValue sched1 s p v).fst ∧ Manager.MInv (Manager.setValue sched2 s' p v).fst :=
+  @Manager.setValue_any_outcome
+
+/-- the same for `set_value(ref, expression)` -/
+theorem C03_expression_assignment_any_outcome :
+    ∀ (sched1 sched2 : Manager.Sched) (s s' : Manager.MState) (p : Manager.Path) (e : Push.Expr),
+      Manager.SameTable s s' →
+        Manager.SetExprScope sched1 sched2 s s' p e →
+          ((Manager.setExpr sched2 s' p e).snd = none ↔ (Manager.setExpr sched1 s p e).snd = none) ∧
+            ((Manager.setExpr sched1 s p e).snd = none →
+                Manager.SameTable (Manager.setExpr sched1 s p e).fst (Manager.setExpr sched2 s' p e).fst) ∧
+              Manager.SameButStore (Manager.setExpr sched1 s p e).fst (Manager.setExpr sched2 s' p e).fst ∧
+                Manager.MInv (Manager.setExpr sched1 s p e).fst ∧ Manager.MInv (Manager.setExpr sched2 s' p e).fst :=
+  @Manager.setExpr_any_outcome
+
+/-- where the error of a failing `write + run_tasks` comes from, in any state satisfying the index invariant and under any scheduler that returns only triggered ids: from the write to the assigned location (nothing ran), or from ONE triggered task, run after the tasks scheduled before it completed (no task scheduled after it ran) -/
+theorem C03_error_comes_from_write_or_triggered_task :
+    ∀ (sched : Manager.Sched) (s : Manager.MState) (p : Manager.Path) (v : Store.Val),
+      Manager.MInv s →
+        (∀ (id : Manager.Path), id ∈ sched (Manager.findTaskids s.idx (Manager.chainR p)) →
+          id ∈ Manager.findTaskids s.idx (Manager.chainR p)) →
+          ∀ (s1 : Manager.MState) (x : Store.Err),
+            Manager.writeAndRun sched s p v = (s1, some x) →
+              Manager.writeRef s p v = (s1, some x) ∨
+                ∃ sw pre t post sm,
+                  Manager.writeRef s p v = (sw, none) ∧
+                    Manager.Trig s p t ∧
+                      List.map (fun x => x.id) (pre ++ t :: post) = sched (Manager.findTaskids s.idx (Manager.chainR p)) ∧
+                        Manager.runTasks sw pre = (sm, none) ∧ Manager.runTask sm t = (s1, some x) :=
+  @Manager.writeAndRun_error_source_inv
+
+/-- **"same exception" is FALSE in general for an assignment that raises while tasks run** (in the model as in the code): `g = a+1`, `c = a+b` (`b = 2^1024`), `f = a ⟨unknown operator⟩ 2`, all triggered by `a`, none feeding another, in the scope `ScopeT` (`FailExample.scope_ok`); assigning `a = NaN` under the order `[f, c, g]` raises `TypeError` and leaves `g = 2`, under the (equally legal) order `[g, c, f]` raises `OverflowError` and leaves `g = NaN` -/
+theorem C03_failing_orders_differ :
+    (Manager.setValue id FailExample.sF FailExample.da Store.Val.nan).snd = some Store.Err.typeError ∧
+      (Manager.setValue FailExample.rev FailExample.sF FailExample.da Store.Val.nan).snd = some Store.Err.overflow ∧
+        Store.get (Manager.setValue id FailExample.sF FailExample.da Store.Val.nan).fst.store FailExample.dg =
+            Except.ok (Store.Val.int 2) ∧
+          Store.get (Manager.setValue FailExample.rev FailExample.sF FailExample.da Store.Val.nan).fst.store FailExample.dg =
+            Except.ok Store.Val.nan :=
+  FailExample.fail_differently
+
+/-- **`refresh()` at any point of a history never changes the outcome of the rest of the history**: for every state `s` satisfying the index invariant (every state a history of well-formed calls leads to, `C03_all_histories`), frozen or not, and every rest `cs` in the scope `BisimRun'` (the manager that continues from `s` under `sched1`, the manager that first calls `refresh()` under `sched2`): the same error at every call, `SameTable` after every call (`RelatedOutcomes`) and at the end, all queries agree at the end -/
+theorem C03_refresh_anywhere :
+    ∀ (sched1 sched2 : Manager.Sched) (s : Manager.MState),
+      Manager.MInv s →
+        ∀ (cs : List Manager.Call),
+          Manager.BisimRun' sched1 sched2 s (Manager.refresh s).fst cs →
+            Manager.RelatedOutcomes (Manager.outcomes sched1 s cs) (Manager.outcomes sched2 (Manager.refresh s).fst cs) ∧
+              List.map (fun x => x.snd) (Manager.outcomes sched2 (Manager.refresh s).fst cs) =
+                  List.map (fun x => x.snd) (Manager.outcomes sched1 s cs) ∧
+                Manager.SameTable (Manager.applyAll sched1 s cs) (Manager.applyAll sched2 (Manager.refresh s).fst cs) ∧
+                  Manager.QueriesAgree (Manager.applyAll sched1 s cs)
+                    (Manager.applyAll sched2 (Manager.refresh s).fst cs) :=
+  @Manager.refresh_anywhere
+
+/-- the same for `clone()`: continuing on the clone (`cloneOf s`: the same task table and containers, indices regenerated from the task table — the indices whose supports the driver's `clone` line reports) instead of the original -/
+theorem C03_clone_anywhere :
+    ∀ (sched1 sched2 : Manager.Sched) (s : Manager.MState),
+      Manager.MInv s →
+        ∀ (cs : List Manager.Call),
+          Manager.BisimRun' sched1 sched2 s (Manager.cloneOf s) cs →
+            Manager.RelatedOutcomes (Manager.outcomes sched1 s cs) (Manager.outcomes sched2 (Manager.cloneOf s) cs) ∧
+              List.map (fun x => x.snd) (Manager.outcomes sched2 (Manager.cloneOf s) cs) =
+                  List.map (fun x => x.snd) (Manager.outcomes sched1 s cs) ∧
+                Manager.SameTable (Manager.applyAll sched1 s cs) (Manager.applyAll sched2 (Manager.cloneOf s) cs) ∧
+                  Manager.QueriesAgree (Manager.applyAll sched1 s cs) (Manager.applyAll sched2 (Manager.cloneOf s) cs) :=
+  @Manager.clone_anywhere
+
+/-- a `refresh()` spliced into a history: `pre ++ rest` on one manager and `pre ++ refresh :: rest` on another, both started in the same state: the errors of the calls of `rest` agree one by one and the two managers end `SameTable` (both parts in the scope `BisimRun'`) -/
+theorem C03_refresh_spliced :
+    ∀ (sched1 sched2 : Manager.Sched) (pre rest : List Manager.Call) (s0 : Manager.MState),
+      Manager.MInv s0 →
+        Manager.BisimRun' sched1 sched2 s0 s0 pre →
+          Manager.BisimRun' sched1 sched2 (Manager.applyAll sched1 s0 pre)
+              (Manager.refresh (Manager.applyAll sched2 s0 pre)).fst rest →
+            List.drop (pre.length + 1)
+                  (List.map (fun x => x.snd) (Manager.outcomes sched2 s0 (pre ++ Manager.Call.refresh :: rest))) =
+                List.drop pre.length (List.map (fun x => x.snd) (Manager.outcomes sched1 s0 (pre ++ rest))) ∧
+              Manager.SameTable (Manager.applyAll sched1 s0 (pre ++ rest))
+                (Manager.applyAll sched2 s0 (pre ++ Manager.Call.refresh :: rest)) :=
+  @Manager.refresh_spliced
+
+/-- non-vacuity: a manager holding two expression definitions, a function task and a linear knob, and its clone (different index states), run with different legal orders through an 18-call history containing every clause of `CallOK'` (`Bisim2Example.hist`); the history is outside the scope of the narrow theorems from its first call on -/
+example : Manager.BisimRun' id Bisim2Example.fLast Bisim2Example.sM Bisim2Example.sC Bisim2Example.hist :=
+  Bisim2Example.hist_ok
+
+end wrapped2
 
 end Properties.C03
